@@ -17,6 +17,7 @@ mod exm_max2sat;
 #[allow(unused_imports)]
 use exm_max2sat::ex_max2sat::{data, errors, heuristics, model, relax};
 mod exm_psp;
+mod exm_mcp;
 mod exm_alp;
 // `model.rs` of the alp example (compiled in by `exm_alp`) names its reader's module `crate::io_utils`
 #[allow(unused_imports)]
